@@ -29,7 +29,8 @@ def generate(rng, tier):
     N = 160 if tier == "quick" else 1800
     cases = []
     for _ in range(N):
-        c = cc.gen_kmedoids(rng) if rng.random() < 0.65 else cc.gen_hybrid(rng)
+        r = rng.random()
+        c = cc.gen_multiscale(rng) if r < 0.15 else cc.gen_kmedoids(rng) if r < 0.7 else cc.gen_hybrid(rng)
         c["extras"] = True
         cases.append(c)
     return cases
@@ -96,5 +97,5 @@ def tags(c, out):
     return t
 
 
-ESSENTIAL_TAGS = ["kmedoids", "hybrid", "start-cold", "start-centers", "start-state", "start-pairs", "explicit-proposals",
+ESSENTIAL_TAGS = ["multi-scale-data", "kmedoids", "hybrid", "start-cold", "start-centers", "start-state", "start-pairs", "explicit-proposals",
                   "random-proposals", "some-sweep-lowered-cost", "some-sweep-changed-nothing", "estimator-form"]
